@@ -728,6 +728,8 @@ type zzNurseOutcome struct {
 	report    string
 	early     string
 	swept     map[string]bool // output is spent on chain at the end
+	beyond    map[string]bool // output can never exist (the counterparty took the HTLC)
+	idle      bool            // nothing left to happen in the nursery at the end
 }
 
 func zzNurseDisposition(h []string) string {
@@ -752,7 +754,10 @@ func (n *zzC13Nursery) outcome() *zzNurseOutcome {
 	o := &zzNurseOutcome{final: map[string]string{}, hist: map[string]string{}, publishes: map[string]int{},
 		sweeps: map[string]map[string]int{}, early: n.early}
 	o.swept = map[string]bool{}
+	o.beyond = map[string]bool{}
+	o.idle = n.idle()
 	for op, h := range n.hist {
+		o.beyond[op.String()] = n.beyondReach(op)
 		o.final[op.String()] = zzNurseDisposition(h)
 		o.hist[op.String()] = strings.Join(h, ">")
 		o.swept[op.String()] = ex.chain.spent[op] != nil
@@ -929,6 +934,37 @@ func (n *zzC13Nursery) judgeAgainstReference(o, ref *zzNurseOutcome) {
 	if o.report != ref.report {
 		// covered output by output above; kept as a counter
 		r.Count("probe_nursery_report_differs_from_reference")
+	}
+}
+
+// judgeAfterDowntime: the nursery's part of an execution in which the chain
+// moved on while the node was down (see zzC13Exec.judgeAfterDowntime). The
+// counterparty may have taken an HTLC meanwhile, then its second-level output
+// never exists; everything else the nursery holds must still be swept: "none
+// stuck in the crib or in kindergarten" whatever height the node comes back at.
+func (n *zzC13Nursery) judgeAfterDowntime(o, ref *zzNurseOutcome, where, sig string) {
+	r := n.ex.r
+	if !ref.idle {
+		// the uninterrupted run did not get that far either
+		return
+	}
+	var ops []string
+	for op := range o.final {
+		ops = append(ops, op)
+	}
+	sort.Strings(ops)
+	for _, op := range ops {
+		got := o.final[op]
+		if got == "graduated" || o.swept[op] || o.beyond[op] {
+			continue
+		}
+		r.FailOrKnown("nursery-output-not-graduated", sig, "%s: output %s ends as %q (%s) in the nursery store, unspent on chain and still claimable; "+
+			"the nursery of the uninterrupted run ends with nothing left to do", where, op, got, o.hist[op])
+	}
+	for op := range ref.final {
+		if _, ok := o.final[op]; !ok {
+			r.Count("probe_downtime_nursery_output_never_stored")
+		}
 	}
 }
 
